@@ -18,7 +18,7 @@ PROPS = {
         ],
         "fuzz": [{"name": "FuzzC01RoundTrip", "time": "90s"}],
         "rule": "cases = (data recipe, constructor {NewWriter, 4K window, NewWriterDict}, level -2..9, Write/Flush partition) drawn by rapid, "
-                "plus an enumeration of lengths around every buffer threshold and a token-limit family; each runs at every runnable acceleration level in its own process; plus one stream longer than 4 GiB (three in the thorough tier) generated and verified on the fly. "
+                "plus enumerations: lengths around every buffer threshold; token-limit families (incompressible lead of 32767+d and 65534+d bytes - one and two literals per token - followed by runs of 300/520/1300 bytes); the 4 KiB-window phase sweep (k zero bytes, k in 3900..4300, then 80000 incompressible bytes, so that the first full block ends with every number of pending tokens); exact Fibonacci byte counts over 14..23 values (deepest possible literal tree, 21 for one Huffman-only block); each runs at every runnable acceleration level in its own process; plus one stream longer than 4 GiB (three in the thorough tier) generated and verified on the fly. "
                 "Oracle: emitted bytes are exactly one complete RFC 1951 stream (reference inflater end position == length), decoded identically by "
                 "the reference inflater, compress/flate and fastgo's Reader; Writer buffers guarded by canaries. "
                 "Non-trivial = at least one data byte and the stream was produced by fastgo's own compressor (not delegated to compress/flate); distinct = distinct case digest.",
@@ -49,8 +49,8 @@ PROPS = {
     },
     "C14": {
         "level": "fault_enumeration",
-        "tests": [{"name": "TestC14", "noasm": True, "quick": 400, "thorough": 8000}],
-        "rule": "cases = (setting, Write/Flush/Close sequence, error value, short-write size, optional Reset+later history) drawn by rapid; for each case the fault-free run counts the destination calls N and then EVERY k in 1..N (N<=64; stratified sample of first/last/op-boundary/stride otherwise) is injected. "
+        "tests": [{"name": "TestC14", "noasm": True, "quick": 1200, "thorough": 16000}],
+        "rule": "cases = (setting, Write/Flush/Close sequence, error value, short-write size, optional Reset+later history) drawn by rapid; for each case the fault-free run counts the destination calls N and then EVERY k in 1..N (N<=64; stratified sample of first/last/op-boundary/stride otherwise) is injected. Cost bound (by size, not time): for settings whose compressor is compress/flate's (levels 3..9, dictionaries) the writes are scaled to <= 100 KiB (32 KiB at levels >= 7, where compress/flate drops to ~75 KB/s on low-entropy data) and inputs above 16 KiB get the stratified sample. gzip headers include non-ASCII Latin-1 names/comments (converted strings are separate destination calls). "
                 "Oracle: the operation containing call k returns the injected error; every later call returns non-nil; zero destination calls after the failure; no panic; canaries around Writer buffers intact; Reset(good) behaves like a new Writer; the fault-free run yields a complete valid container. "
                 "evaluations = (case, k) pairs. Non-trivial = the failing call happens inside Flush or Close, or k>1; fastgo's own compressor.",
         "assumptions": COMMON_ASSUME,
@@ -106,8 +106,8 @@ PROPS = {
     "C13": {
         "level": "exploration",
         "tests": [{"name": "TestC13", "noasm": True, "quick": 5000, "thorough": 80000}],
-        "rule": "cases = (package flate/gzip/zlib; 1-3 earlier inputs, valid or malformed, each with a read plan: no reads / read k bytes then abandon / drain to EOF or error; then Reset onto the next input: valid, truncated, malformed, in particular streams whose back-references reach before their own start; zlib with right / wrong / missing / unneeded dictionary; bad checksum or cut trailer; read sizes; source chunking) drawn by rapid. "
-                "Oracle (model = fresh object): Reset's return value, header fields, every byte and the final error string (incl. CorruptInputError offset) equal those of a newly constructed Reader (NewReader / NewReaderDict) on an identical source. "
+        "rule": "cases = (package flate/gzip/zlib; 1-3 earlier inputs, valid or malformed, each with a read plan: no reads / read k bytes then abandon / drain to EOF or error; then Reset onto the next input: valid, truncated, malformed, in particular streams whose back-references reach before their own start; zlib with right / wrong / missing / unneeded dictionary; bad checksum or cut trailer; read sizes; source chunking) drawn by rapid; in a quarter of the cases every use hands the Reader the same refilled source object (earlier inputs followed by 0..5000 further bytes the Reader may have read ahead); in a third of the zlib cases all dictionaries live in one caller-owned buffer of fixed length whose contents are replaced between uses; in a third of the earlier uses the source is the caller's own *bufio.Reader (16 B..64 KiB) with other data after the stream. "
+                "Oracle (model = fresh object): Reset's return value, header fields, every byte and the final error string (incl. CorruptInputError offset) equal those of a newly constructed Reader (NewReader / NewReaderDict) on an identical source; and every caller-owned *bufio.Reader used earlier holds exactly the buffered and unread bytes it held when the Reader left it (a new Reader never touches an unrelated earlier source). "
                 "Non-trivial = an earlier use left undelivered output, an error or a mid-stream state, and the next input is non-empty.",
         "assumptions": COMMON_ASSUME,
     },
@@ -128,10 +128,11 @@ PROPS = {
             {"name": "TestC18", "quick": 16000, "thorough": 240000, "levels": "one", "shards": {"quick": 12, "thorough": 16}},
             {"name": "TestC18W", "quick": 2000, "thorough": 30000, "same_seed": True, "transcript": True, "shards": {"quick": 2, "thorough": 4}},
             {"name": "TestC18Enc", "quick": 6000, "thorough": 200000, "shards": {"quick": 1, "thorough": 3}},
+            {"name": "TestC18EncSweep", "kind": "plain"},
         ],
         "rule": "reader half (in one process, level switched at run time through the verif hook): inputs = valid streams, valid streams cut short, malformed streams with injected faults and >=600-byte tails, mutated streams, random bytes x Read sizes x source chunkings; for every runnable level a fresh Reader decodes the input; oracle: identical bytes and identical outcome kind (EOF / unexpected EOF / corrupt) across levels, and each run satisfies C03's reference-inflater oracle. "
                 "writer half (one process per level, same rapid seed): identical workload lists (data, flate/gzip/zlib setting, Write/Flush/Close ops, optional failing destination); each process checks what it emitted (flushed prefixes decode to the data so far, closed stream is a valid container) and records per-call error flags and decode digests; the driver requires the transcripts of all levels to be identical (compressed bytes are deliberately not compared). "
-                "token-encoder stress (one process per level): inputs made of short copies from 2..32 KiB back separated by 0..3 literals, so that most tokens are 25..31 bits long - the range around the vector token encoders' per-level fast-path limits; oracle: the output round-trips through compress/flate. "
+                "token-encoder stress (one process per level): inputs made of short copies from 2..32 KiB back separated by 0..3 literals, so that most tokens are 25..31 bits long - the range around the vector token encoders' per-level fast-path limits; oracle: the output round-trips through compress/flate. A second mode gives copy lengths and distances geometric frequency ladders (both Huffman trees get a wide spread of code lengths; the rarest symbols make tokens of 33..48 bits), with bursts of long far copies and a final copy that is the only user of its length and distance symbols; and a directed sweep slides one burst of 64 such tokens across the encoder's output-buffer fill point by every number of padding literals over a whole buffer period (step 5 quick, 1 thorough). "
                 "Non-trivial (reader) = input has a Huffman block with >24 bytes of compressed data, i.e. the AVX2 loop is eligible, and >=2 levels ran; (writer) = non-empty data.",
         "assumptions": COMMON_ASSUME + ["the run-time level switch is faithful for Readers because the decode dispatch re-reads the level on every call; Writers cache their encoder at init and are therefore run one process per level"],
     },
